@@ -1532,7 +1532,7 @@ fn read_subframes<R: BitRead>(
                     read_subframe(&mut reader, side_bps, side)?;
 
                     left.iter().zip(side.iter_mut()).for_each(|(left, side)| {
-                        *side = *left - *side;
+                        *side = left.wrapping_sub(*side);
                     });
                 }
                 None => {
@@ -1550,7 +1550,7 @@ fn read_subframes<R: BitRead>(
 
                     left.iter().zip(side_i64).zip(side.iter_mut()).for_each(
                         |((left, side_i64), side)| {
-                            *side = (*left as i64 - side_i64) as i32;
+                            *side = (*left as i64).wrapping_sub(side_i64) as i32;
                         },
                     );
                 }
@@ -1568,7 +1568,7 @@ fn read_subframes<R: BitRead>(
                     read_subframe(&mut reader, header.bits_per_sample.into(), right)?;
 
                     side.iter_mut().zip(right.iter()).for_each(|(side, right)| {
-                        *side += *right;
+                        *side = side.wrapping_add(*right);
                     });
                 }
                 None => {
@@ -1587,7 +1587,7 @@ fn read_subframes<R: BitRead>(
 
                     side.iter_mut().zip(side_i64).zip(right.iter()).for_each(
                         |((side, side_64), right)| {
-                            *side = (side_64 + *right as i64) as i32;
+                            *side = side_64.wrapping_add(*right as i64) as i32;
                         },
                     );
                 }
@@ -1606,9 +1606,9 @@ fn read_subframes<R: BitRead>(
                     read_subframe(&mut reader, side_bps, side)?;
 
                     mid.iter_mut().zip(side.iter_mut()).for_each(|(mid, side)| {
-                        let sum = *mid * 2 + side.abs() % 2;
-                        *mid = (sum + *side) >> 1;
-                        *side = (sum - *side) >> 1;
+                        let sum = mid.wrapping_mul(2) | (*side & 1);
+                        *mid = sum.wrapping_add(*side) >> 1;
+                        *side = sum.wrapping_sub(*side) >> 1;
                     });
                 }
                 None => {
@@ -1626,9 +1626,9 @@ fn read_subframes<R: BitRead>(
 
                     mid.iter_mut().zip(side.iter_mut()).zip(side_i64).for_each(
                         |((mid, side), side_i64)| {
-                            let sum = *mid as i64 * 2 + (side_i64.abs() % 2);
-                            *mid = ((sum + side_i64) >> 1) as i32;
-                            *side = ((sum - side_i64) >> 1) as i32;
+                            let sum = (*mid as i64 * 2) | (side_i64 & 1);
+                            *mid = (sum.wrapping_add(side_i64) >> 1) as i32;
+                            *side = (sum.wrapping_sub(side_i64) >> 1) as i32;
                         },
                     );
                 }
@@ -1756,8 +1756,8 @@ fn predict<I: SignedInteger>(coefficients: &[i64], qlp_shift: u32, channel: &mut
                 .iter()
                 .rev()
                 .zip(coefficients)
-                .map(|(x, y)| (*x).into() * y)
-                .sum::<i64>()
+                .map(|(x, y)| (*x).into().wrapping_mul(*y))
+                .fold(0i64, i64::wrapping_add)
                 >> qlp_shift,
         ));
     }
